@@ -152,6 +152,10 @@ example : String.ofList lit25Em1.render = "25E-1" := by decide
 example : lit25Em1.spec = 5 / 2 := by decide +kernel
 example : tokenValue "25E-1".toList = some (5 / 2) := by decide +kernel
 example : tokenValue "1.5e-3".toList = tokenValue "15E-4".toList := by decide +kernel
+/-- `12` (hypothesis of `integer_branch_only_integers`) and `2.5` (of `trailing_zero_irrelevant`) -/
+example : autoNumberClass (⟨[1, 2], false, [], none⟩ : DecLit).render = .integer := by decide +kernel
+example : (⟨[2], true, [5], none⟩ : DecLit).dot = true := rfl
+example : (⟨[2], true, [5, 0], none⟩ : DecLit).spec = (⟨[2], true, [5], none⟩ : DecLit).spec := by decide +kernel
 example : autoNumberClass "1E-3".toList = .float ∧ autoNumberClass "0x1E".toList = .integer := by decide +kernel
 
 end Unyt.C02
